@@ -52,6 +52,28 @@ def run_history(spec, hist, check_last_only=True):
     return impl, model, obs, problems, cb
 
 
+# every history this worker process has executed so far (the library may keep state between them: module-level containers,
+# class attributes, mutable defaults): a violation that does not reproduce in a pristine process is re-run after them
+_LOG = []
+_LOG_CAP = 20000
+
+
+def replay_prior(payload):
+    """Worker (fresh process): run the recorded histories in order; report the problems of the last one as an Acc."""
+    acc = Acc()
+    entries = payload["entries"]
+    for k, (mod, specname, params, hist) in enumerate(entries):
+        spec = get_spec(mod, specname, params)
+        try:
+            impl, model, obs, problems, cb = run_history(spec, hist)
+        except Exception:
+            problems = []
+        if k == len(entries) - 1:
+            for sig, detail in problems:
+                acc.violation(sig, (len(hist), *hist), {"spec_mod": mod, "spec": specname, "params": params, "history": [spec.ops[i] for i in hist], "hist_idx": hist}, jsonable(detail))
+    return acc
+
+
 def expand(payload):
     """Worker: expand a chunk of histories by every op."""
     spec = get_spec(payload["mod"], payload["spec"], payload.get("params"))
@@ -59,6 +81,8 @@ def expand(payload):
     for hist in payload["hists"]:
         for oi in range(len(spec.ops)):
             h2 = list(hist) + [oi]
+            if len(_LOG) < _LOG_CAP:
+                _LOG.append([payload["mod"], payload["spec"], payload.get("params"), h2])
             try:
                 impl, model, obs, problems, cb = run_history(spec, h2)
                 ca = digest(spec.canon(impl))
@@ -69,7 +93,13 @@ def expand(payload):
 
                 ca, od, cb, problems = None, None, None, []
                 err = traceback.format_exc()
-            out.append((h2, cb, od, ca, [(s, jsonable(d)) for s, d in problems], err))
+            prior = None
+            if problems:
+                from .. import runner as _runner
+
+                # other (small) tasks this worker ran before, then the histories it ran
+                prior = {"tasks": [list(t) for t in _runner.TASK_HISTORY if t[1] not in ("expand", "replay_prior")][-64:], "entries": [list(e) for e in _LOG]}
+            out.append((h2, cb, od, ca, [(s, jsonable(d)) for s, d in problems], err, prior))
     return out
 
 
@@ -103,7 +133,7 @@ def explore(pool, modname, specname, params, max_depth, undedup_depth, prop_labe
     conflicts = []
     outcome_classes = set()
 
-    def record(h2, cb, od, ca, problems, err):
+    def record(h2, cb, od, ca, problems, err, prior=None):
         nonlocal transitions
         transitions += 1
         if err:
@@ -122,14 +152,19 @@ def explore(pool, modname, specname, params, max_depth, undedup_depth, prop_labe
                 {"spec_mod": modname, "spec": specname, "params": params, "history": [spec.ops[i] for i in h2], "hist_idx": h2},
                 detail,
             )
+            if prior and (len(prior["entries"]) > 1 or prior["tasks"]):
+                # how to reproduce it together with what the worker had executed before (see cli.confirm)
+                rec = acc.violations[sig][-1][1]
+                if rec.get("case", {}).get("hist_idx") == h2 and "task_history" not in rec:
+                    rec["task_history"] = prior["tasks"] + [["mc.engines.history", "replay_prior", {"entries": prior["entries"]}]]
 
     for depth in range(1, max_depth + 1):
         if not frontier:
             fixpoint = True
             break
         nxt = []
-        for h2, cb, od, ca, problems, err in level(frontier):
-            record(h2, cb, od, ca, problems, err)
+        for h2, cb, od, ca, problems, err, prior in level(frontier):
+            record(h2, cb, od, ca, problems, err, prior)
             acc.case(nontrivial=bool(ca and ca != cb), outcome="changed" if ca != cb else "unchanged")
             # a state reached through a violating transition is terminal (model and
             # implementation no longer agree, so nothing beyond it is meaningful)
@@ -147,8 +182,8 @@ def explore(pool, modname, specname, params, max_depth, undedup_depth, prop_labe
     front = [[]]
     for depth in range(1, undedup_depth + 1):
         nxt = []
-        for h2, cb, od, ca, problems, err in level(front):
-            record(h2, cb, od, ca, problems, err)
+        for h2, cb, od, ca, problems, err, prior in level(front):
+            record(h2, cb, od, ca, problems, err, prior)
             all_hist += 1
             if ca is not None and not problems:
                 nxt.append(h2)
